@@ -11,9 +11,31 @@ Modes
   and their symmetry is imposed by *canonicalising* Gram entries (<M a, b> and <a, M b> are the same solver variable);
 * moment form (CG): single base vector g, operator H: <H^i g, H^j g> = mu_{i+j}, Hankel matrix of the moments PSD.
 
-Division by zero: `x / 0` is modelled as a poisoned value (python NaN): arithmetic propagates it, every comparison with
-it is False, and it cannot appear in a goal (loud error).  This is what lets the real `alpha = rPr / curvature` line run
-with zero curvature (the quotient is dead on that path), and what makes `step is finite` a decidable goal for treigen.
+Division by zero: `x / 0` is modelled as a poisoned value (python NaN) on a forked path: arithmetic propagates it, every
+comparison with it is False; a poisoned *returned* step fails the goal `step_is_finite`, a poisoned value inside any other
+goal is a loud harness error.  This lets the real `alpha = rPr / curvature` line run with zero curvature (the quotient is
+dead on that path) and makes finiteness of treigen's result a decidable goal.
+
+Encodings that made the difference (all measured, see the helpers):
+* quotients are *definitional*: `a / b` is a fresh real q with q*b = a (hash-consed per path): CG iteration-2 goals went from
+  unknown at 60 s to unsat in < 0.3 s;
+* equalities over sqrt/quotient terms are split into two inequalities (`add_eq`);
+* cut lemmas (`cut`): a lemma proved on a path is an assumption of the later goals of that path;
+* clean goals (`clean_goal`): the final goal of a chain is decided from an explicit list of already proved lemmas in renamed
+  variables (eigen-coordinates) instead of the whole path condition; if that reduced query is not unsat the goal is recorded
+  with the whole path condition, so that a counterexample is always a model of a real path and can be replayed;
+* treigen: eigh is a contract stub (symbolic rotation with/without reflection; in a replay the real numpy eigh on the concrete
+  matrix built from the model, eigenvector signs aligned with the model's); the three exits of `solve` are told apart by the
+  ordinal of the `return` statement (sys.settrace), the secular while loop is covered by 1-induction (base / step / exit) on
+  the loop body extracted from the current source.
+
+Expected on the unchanged tree (three defects of treigen.solve, each reproduced on the real source and, as recorded in the
+replay notes, on the real jax module):
+* hard case uses `z = v[0]` (a ROW of the eigenvector matrix) instead of the eigenvector `v[:,0]`: for every non-symmetric
+  eigenvector matrix the step is on the boundary but not stationary -> `hard_case:stationary_along_the_higher_eigenvector`;
+* `np.sign(pz)` is 0 when the hard-case step is exactly orthogonal to z (b orthogonal to the lowest eigenvector, diagonal A;
+  b = 0 with an indefinite A): tau = x/0 -> NaN step -> `hard_case:step_is_finite`;
+* A = 0: eps = 0, 1/(0*0) -> NaN step -> `O4.treigen_zero_matrix/...secular:step_is_finite`.
 """
 import ast
 import importlib
@@ -36,6 +58,10 @@ REL_TREIGEN = 'optimism/treigen/treigen.py'
 
 DESIGNED_NOT_REGISTERED = [
     ('O1.kernels_component/preconditioned_project_to_boundary[n=2].*', 'explicit 2-D vectors with a symbolic SPD 2x2 matrix: result_on_boundary and tau_nonnegative unknown at 40 s (core+nlsat); the same kernel is discharged in Gram form for any dimension (< 0.1 s) and in component form n=1'),
+    ('O3.cg_moment_form[max_cg_iters=3]', 'moment form unrolled to 3 iterations: every iteration-3 exit (sqrt_defined, step_inside_region, on_boundary_when_reported, model_does_not_increase, model_not_above_cauchy_step) unknown at 20 s per query even with the definitional-quotient encoding that makes iteration 2 instantaneous; unwinding bound 2 is the claim'),
+    ('O3.cg_component[n=2; max_cg_iters=2]', 'explicit 2-D vectors with a symbolic symmetric Hessian, 2 iterations: iteration-2 exits unknown at 30 s per query; iteration 2 is covered in moment form for any dimension, n=2 component mode is registered for the first iteration'),
+    ('O4.treigen_hard_case[symbolic eigenbasis; rotation]/hard_case:step_on_boundary[<=] on inputs where the stationarity lemma fails', 'with a symbolic non-symmetric eigenvector matrix and a step that is NOT stationary along the higher eigenvector (unchanged tree: z = v[0]) z3 needs 43 s (nlsat, after 30 s of core) / unknown at 300 s without the norm-preservation lemma; the goal is therefore evaluated in phase 2 (only when the stationarity lemma is discharged) for a symbolic eigenbasis and unconditionally for the concrete rotations (< 0.1 s)'),
+    ('O4.treigen whole function with the secular loop unrolled to one pass (no invariant)', 'did not finish in 20 min; the loop is covered for any number of passes by the 1-induction O4.treigen_secular_loop_base/step/exit'),
     ('O2.dogleg_component/dogleg[n=2] projection exit', 'inside_region / on_the_dogleg_path unknown at 60 s in explicit 2-D (as in the design probe); the projection exit is discharged in Gram form (O2.dogleg_gram) for any dimension'),
 ]
 
@@ -102,14 +128,6 @@ def install_sqrt(ex, var_filter):
         ex.pc.append(z3.And(r >= 0, r * r == x.z))
         return SymReal(r)
     ex.sqrt = sqrt
-
-
-def fdiv(a, b):
-    """concrete division with IEEE semantics for python floats"""
-    try:
-        return a / b
-    except ZeroDivisionError:
-        return NAN if (a == 0 or a != a) else math.copysign(float('inf'), a) * math.copysign(1.0, b)
 
 
 def load_es(ex=None, **kw):
@@ -871,6 +889,33 @@ def model_e(sig, be, x):
 TAGS = ('interior', 'hard_case', 'secular')
 
 
+def call_and_find_exit(mod, fname, thunk):
+    """run thunk() and report through which `return` statement (ordinal in source order) the function `fname` of the real
+    source was left: the exits of treigen.solve are told apart by position, not by what the branch computes"""
+    tree = ast.parse(mod.__source__)
+    fd = [n for n in ast.walk(tree) if isinstance(n, ast.FunctionDef) and n.name == fname][0]
+    rets = sorted(n.lineno for n in ast.walk(fd) if isinstance(n, ast.Return))
+    seen = []
+
+    def local(frame, event, arg):
+        if event == 'return':
+            seen.append(frame.f_lineno)
+        return local
+
+    def tracer(frame, event, arg):
+        if event == 'call' and frame.f_code.co_name == fname and frame.f_code.co_filename == mod.__file__:
+            return local
+        return None
+    old = sys.gettrace()
+    sys.settrace(tracer)
+    try:
+        out = thunk()
+    finally:
+        sys.settrace(old)
+    k = rets.index(seen[-1]) if seen and seen[-1] in rets else -1
+    return out, k, len(rets)
+
+
 def secular_certificate(ex, G, sig, Delta, xe, be, xx, qe, lam, pN, rN):
     """the exit of the secular iteration: the returned step is stationary for the shift lam >= max(0, -sig0), its norm is the code's
     last secular norm, which passed the exit test | |p| - Delta | <= 1e-9 Delta; hence a global minimiser over the ball of its own radius"""
@@ -955,9 +1000,11 @@ def make_treigen(zero_matrix=False, max_secular_iters=0, rotation=None, reflect=
             return r
         mod.qnorm_squared, mod.pnorm_squared = qn, pn
         with onp.errstate(all='ignore'):
-            step = mod.solve(A, b.copy(), Delta)
+            step, k_exit, n_exits = call_and_find_exit(mod, 'solve', lambda: mod.solve(A, b.copy(), Delta))
         step = onp.asarray(step, dtype=object if ex.symbolic else float).reshape(-1)
-        tag = 'hard_case' if 'sign' in rec.called else ('secular' if 'pnorm_squared' in rec.called else 'interior')
+        if n_exits != 3 or k_exit < 0:
+            raise px.Unsupported('treigen.solve is expected to have three return statements (interior, hard case, secular): found %d' % n_exits)
+        tag = TAGS[k_exit]
         ex.note('exit=%s secular_iterations=%d' % (tag, iters[0]))
         G = lambda name: '%s:%s' % (tag, name)
         if tag not in tags:
@@ -1265,10 +1312,3 @@ _reg_secular('base', 'the real statements of treigen.solve before the secular lo
 _reg_secular('step', 'one pass of the real loop body from any state satisfying the invariant and the loop test re-establishes the invariant (Newton on the secular equation does not overshoot)')
 _reg_secular('exit', 'from any state satisfying the invariant and the negated loop test the real return statement yields a certified global minimiser (norm within 1e-9 of the radius)')
 
-
-@obligation(P, 'O4.treigen_interior_and_secular_exits[symbolic eigenbasis; one loop pass]', tiers=('thorough',), cap=1800)
-def o4_int_sec_1(h):
-    """cross-check of the induction: the whole real solve with the secular loop unrolled to at most one pass (no invariant involved)"""
-    _treigen_meta(h)
-    h.bounds('treigen.solve n=2, symbolic eigenbasis, spectrum, b, Delta: paths with at most ONE pass of the secular loop (deeper paths cut)')
-    px.run_px(h, 'treigen', make_treigen(tags=('secular',), max_secular_iters=1), cap=120, sqrt_mode='goal')
